@@ -1,0 +1,164 @@
+//go:build verif
+
+// Contracts for package runner (comment-only; read by /verif/govc, ignored by the compiler).
+package runner
+
+// Thread-local ghost state.
+//   held    - number of gate permits this goroutine holds
+//   claimed - targets whose idle->running transition this goroutine performed and whose
+//             run goroutine it has not spawned yet / targets this goroutine is the runner of
+//@ ghost held int threadlocal = 0
+//@ ghost claimed refset threadlocal = ref_empty()
+//@ ghost n_load int threadlocal = 0
+//@ ghost n_eval int threadlocal = 0
+
+//@ struct runner.gate
+//@   protected_by m: capacity
+//@   invariant m: nonneg: this.capacity >= 0
+//@   cond cond guards m
+//@   on_release m: set held = held + old(this.capacity) - this.capacity
+
+//@ func (*runner.gate).enter
+//@   requires g != nil
+//@   requires !holds(g.m)
+//@   ensures  permit: held == old(held) + 1
+//@   ensures  unlocked: !holds(g.m)
+//@   modifies held
+//@   loop 0: invariant holds(g.m)
+//@   loop 0: invariant held == old(held)
+//@   loop 0: invariant g.capacity >= 0 && acq(g.capacity) == g.capacity
+
+//@ func (*runner.gate).exit
+//@   requires g != nil
+//@   requires !holds(g.m)
+//@   requires haspermit: held >= 1
+//@   ensures  permit: held == old(held) - 1
+//@   ensures  unlocked: !holds(g.m)
+//@   modifies held
+
+//@ func runner.newGate
+//@   requires capacity >= 1
+//@   ensures  result != nil
+//@   ensures  result.capacity == capacity
+//@   ensures  fresh: !old(allocated(result))
+//@   ensures  !holds(result.m)
+
+//@ struct runner.target
+//@   protected_by m: status, err
+//@   cond c guards m
+//@   invariant m: range: this.status >= 0 && this.status <= 3
+//@   invariant m: outcome: (this.status == 2 ==> this.err == nil) && (this.status == 3 ==> this.err != nil)
+//@   both m: mono: old(this.status) <= this.status
+//@   both m: final: old(this.status) >= 2 ==> (this.status == old(this.status) && this.err == old(this.err))
+//@   rely m: owner: claimed[this] ==> (this.status == old(this.status) && this.err == old(this.err))
+//@   guarantee m: respect: (old(this.status) == 1 && !claimed[this]) ==> (this.status == 1 && this.err == old(this.err))
+//@   on_release m: when old(this.status) == 0 && this.status == 1 set claimed = ref_add(claimed, this)
+
+//@ func runner.newTarget
+//@   ensures result != nil
+//@   ensures fresh: !old(allocated(result))
+//@   ensures result.status == 0 && result.label == label
+//@   ensures !holds(result.m)
+
+//@ func (*runner.target).start
+//@   requires t != nil && r != nil && r.gate != nil
+//@   requires nolock: !holds(t.m)
+//@   requires tokens: forall x: *runner.target :: claimed[x] ==> x.status == 1
+//@   ensures  !holds(t.m)
+//@   ensures  started: t.status >= 1
+//@   ensures  tokens: claimed == old(claimed)
+
+//@ func (*runner.target).wait
+//@   requires t != nil
+//@   requires nolock: !holds(t.m)
+//@   requires nopermit: held == 0
+//@   requires started: t.status >= 1
+//@   ensures  !holds(t.m)
+//@   ensures  final: t.status >= 2
+//@   ensures  outcome: result == t.err
+//@   ensures  (t.status == 2 ==> result == nil) && (t.status == 3 ==> result != nil)
+//@   loop 0: invariant holds(t.m) && t.status >= 1 && t.status <= 3
+//@   loop 0: invariant (t.status == 2 ==> t.err == nil) && (t.status == 3 ==> t.err != nil)
+//@   loop 0: invariant acq(t.status) == t.status && acq(t.err) == t.err && claimed == old(claimed)
+
+//@ func (*runner.target).run$1
+//@   requires deref(t) != nil
+//@   requires holds(deref(t).m)
+//@   requires acq(deref(t).status) >= 1
+//@   requires deref(t).status >= 0 && deref(t).status <= 3
+//@   requires (deref(t).status == 2 ==> deref(t).err == nil) && (deref(t).status == 3 ==> deref(t).err != nil)
+//@   requires acq(deref(t).status) <= deref(t).status
+//@   requires acq(deref(t).status) >= 2 ==> (deref(t).status == acq(deref(t).status) && deref(t).err == acq(deref(t).err))
+//@   requires (acq(deref(t).status) == 1 && !claimed[deref(t)]) ==> (deref(t).status == 1 && deref(t).err == acq(deref(t).err))
+//@   ensures  !holds(deref(t).m)
+//@   ensures  deref(t).status >= old(deref(t).status)
+//@   ensures  old(deref(t).status) >= 2 ==> deref(t).status == old(deref(t).status)
+//@   ensures  claimed == old(claimed)
+//@   modifies holds(deref(t).m)
+
+//@ func (*runner.target).run
+//@   requires t != nil && r != nil && r.gate != nil
+//@   requires nopermit: held == 0
+//@   requires token: claimed[t] && t.status == 1
+//@   requires nolocks: (forall g: *runner.gate :: !holds(g.m)) && (forall x: *runner.target :: !holds(x.m))
+//@   requires n_load == 0 && n_eval == 0
+//@   ensures  nopermit: held == 0
+//@   ensures  final: t.status >= 2
+//@   ensures  once-load: n_load == old(n_load) + 1
+//@   ensures  once-eval: n_eval <= old(n_eval) + 1
+//@   modifies heap, n_load, n_eval
+//@   spawn_child  claimed = ref_add(ref_empty(), t)
+//@   spawn_parent claimed = ref_del(claimed, t)
+
+//@ func (runner.Targets).LoadTarget
+//@   requires permit: held == 1
+//@   ensures  n_load == old(n_load) + 1
+//@   ensures  result.1 == nil ==> result.0 != nil
+//@   modifies heap, n_load
+
+//@ func (runner.Target).Evaluate
+//@   requires permit: held == 1
+//@   requires engine != nil
+//@   ensures  n_eval == old(n_eval) + 1
+//@   modifies heap, n_eval
+
+//@ func (*runner.runner).getTarget
+//@   requires r != nil
+//@   ensures  result != nil
+
+//@ func (*runner.engine).checkDeps
+//@ func (*runner.engine).check
+
+//@ func (*runner.engine).EvaluateTargets
+//@   requires e != nil && e.runner != nil && e.runner.gate != nil && e.root != nil
+//@   requires permit: held == 1
+//@   requires tokens: forall x: *runner.target :: claimed[x] ==> x.status == 1
+//@   requires nolocks: (forall g: *runner.gate :: !holds(g.m)) && (forall x: *runner.target :: !holds(x.m))
+//@   ensures  permit: held == 1
+//@   ensures  tokens: claimed == old(claimed)
+//@   ensures  len(result) == len(labels)
+//@   modifies heap
+//@   loop 0: invariant held == 0 && claimed == old(claimed) && len(targets) == len(labels)
+//@   loop 0: invariant forall j: int :: 0 <= j && j <= rangeindex ==> (targets[j] != nil && targets[j].status >= 1)
+//@   loop 1: invariant held == 0 && claimed == old(claimed)
+//@   loop 2: invariant held == 0 && claimed == old(claimed)
+//@   loop 2: invariant forall j: int :: 0 <= j && j < len(targets) ==> (targets[j] != nil && targets[j].status >= 1)
+
+//@ func runner.Run
+//@   requires held == 0
+//@   requires claimed == ref_empty()
+//@   requires nolocks: (forall g: *runner.gate :: !holds(g.m)) && (forall x: *runner.target :: !holds(x.m))
+//@   modifies heap
+
+// C09: the accounting behind "at most N targets execute at once".
+// Every release of gate.m changes the releasing goroutine's `held` by old(capacity)-capacity
+// (the on_release rule above), so  capacity + (sum of held over goroutines)  is constant = N;
+// with the invariant capacity >= 0 the sum of held permits never exceeds N.
+//@ lemma C09-limit int <<<
+//@ (declare-const cap0 Int) (declare-const cap1 Int) (declare-const heldme0 Int) (declare-const heldme1 Int)
+//@ (declare-const heldothers Int) (declare-const N Int)
+//@ (assert (= (+ cap0 heldme0 heldothers) N))          ; accounting holds before my critical section
+//@ (assert (= heldme1 (- (+ heldme0 cap0) cap1)))      ; on_release rule of runner.gate
+//@ (assert (>= cap1 0))                                ; monitor invariant after my critical section
+//@ (assert (not (and (= (+ cap1 heldme1 heldothers) N) (<= (+ heldme1 heldothers) N))))
+//@ >>>
